@@ -844,7 +844,8 @@ def _sym_attr(I, obj, name):
         if name == "is_integer" and obj.is_real:
             return lambda: wrap(z3.IsInt(obj.t))
         if name in ("astype",):
-            return lambda dt, **kw: _scalar_type_model(dt)(I, [obj], {})
+            # numpy scalar .astype(dtype): a 0-d array keeps the dtype (needed for byte counts of tofile)
+            return lambda dt, **kw: A.astype(A.as_sarr(obj), dt)
         if name == "real":
             return obj
         if name == "ndim":
